@@ -163,6 +163,7 @@ type HarnessSpec struct {
 	MaxSteps   int            `json:"max_steps,omitempty"`
 	MaxPaths   int            `json:"max_paths,omitempty"`
 	AllocLimit int            `json:"alloc_limit,omitempty"`
+	SampleAll  bool           `json:"sample_all,omitempty"` // every path model is replayed natively (translator validation)
 }
 
 type HarnessRun struct {
@@ -244,8 +245,8 @@ func (r *HarnessRun) absorb(p *PathResult, seed int64) {
 	}
 	if p.Sample != nil {
 		// reservoir of samples: keep the first few and then every k-th path
-		if len(r.Samples) < 8 || (r.NPaths%r.sampleEvery == int(seed%int64(r.sampleEvery))) {
-			if len(r.Samples) < 64 {
+		if r.SampleAll || len(r.Samples) < 8 || (r.NPaths%r.sampleEvery == int(seed%int64(r.sampleEvery))) {
+			if len(r.Samples) < 64 || (r.SampleAll && len(r.Samples) < 4000) {
 				r.Samples = append(r.Samples, p.Sample)
 			}
 		}
